@@ -241,7 +241,7 @@ class Bip32PathParser:
             path_elem = path_elem[:-1]
 
         # The remaining string shall be numeric
-        if not path_elem.isnumeric():
+        if not path_elem.isdecimal():
             raise Bip32PathError(f"Invalid path element ({path_elem})")
 
         return int(path_elem) if not is_hardened else Bip32KeyIndex.HardenIndex(int(path_elem))
